@@ -92,6 +92,32 @@ MUTANTS += [
     ("c16-householder-detach", ["C16"], [(T + "orthogonal.py", "temp = torch.ger(temp, (2.0 / squared_norm) * q_vector)  # Outer product.", "temp = torch.ger(temp, (2.0 / squared_norm.detach()) * q_vector)  # Outer product.")], "GRAD-CUT"),
 ]
 
+CPL = T + "coupling.py"
+MUTANTS += [
+    # ---- C07 ----
+    ("c07-cond-on-inputs", ["C07"], [(CPL, "transform_params = self.transform_net(identity_split, context)\n        transform_split, logabsdet = self._coupling_transform_forward(", "transform_params = self.transform_net(inputs, context)\n        transform_split, logabsdet = self._coupling_transform_forward(")], "CPL-COND"),
+    ("c07-cond-on-transform-split", ["C07"], [(CPL, "        transform_params = self.transform_net(identity_split, context)\n        transform_split, logabsdet_split", "        transform_params = self.transform_net(transform_split, context)\n        transform_split, logabsdet_split")], "CPL-COND"),
+    ("c07-identity-times-one", ["C07"], [(CPL, "        outputs[:, self.identity_features, ...] = identity_split\n", "        outputs[:, self.identity_features, ...] = identity_split * 1.0\n")], "CPL-COPY"),
+    ("c07-swap-scatter", ["C07"], [(CPL, "        outputs[:, self.identity_features] = identity_split\n        outputs[:, self.transform_features] = transform_split", "        outputs[:, self.transform_features] = identity_split\n        outputs[:, self.identity_features] = transform_split")], "CPL-SCAT"),
+    ("c07-partition-gap", ["C07"], [(CPL, "features_vector.masked_select(mask <= 0)", "features_vector.masked_select(mask < 0)")], "CPL-PART"),
+    ("c07-inverse-cond-before-uncond", ["C07"], [(CPL, "        logabsdet = 0.0\n        if self.unconditional_transform is not None:\n            identity_split, logabsdet = self.unconditional_transform.inverse(\n                identity_split, context\n            )\n\n        transform_params = self.transform_net(identity_split, context)", "        logabsdet = 0.0\n        transform_params = self.transform_net(identity_split, context)\n        if self.unconditional_transform is not None:\n            identity_split, logabsdet = self.unconditional_transform.inverse(\n                identity_split, context\n            )\n")], "CPL-COND"),
+    ("c07-forward-cond-after-uncond", ["C07"], [(CPL, "        transform_params = self.transform_net(identity_split, context)\n        transform_split, logabsdet = self._coupling_transform_forward(\n            inputs=transform_split, transform_params=transform_params\n        )\n\n        if self.unconditional_transform is not None:\n            identity_split, logabsdet_identity = self.unconditional_transform(\n                identity_split, context\n            )\n            logabsdet += logabsdet_identity\n", "        logabsdet_identity = 0.0\n        if self.unconditional_transform is not None:\n            identity_split, logabsdet_identity = self.unconditional_transform(\n                identity_split, context\n            )\n        transform_params = self.transform_net(identity_split, context)\n        transform_split, logabsdet = self._coupling_transform_forward(\n            inputs=transform_split, transform_params=transform_params\n        )\n        logabsdet = logabsdet + logabsdet_identity\n")], "CPL-COND"),
+    ("c07-conditional-scatter", ["C07"], [(CPL, "        outputs[:, self.transform_features] = transform_split\n\n        return outputs, logabsdet\n\n    def _transform_dim_multiplier", "        if context is not None:\n            outputs[:, self.transform_features] = transform_split\n\n        return outputs, logabsdet\n\n    def _transform_dim_multiplier")], "CPL-SCAT"),
+    ("c07-piecewise-direction", ["C07"], [(CPL, "return self._coupling_transform(inputs, transform_params, inverse=True)", "return self._coupling_transform(inputs, transform_params, inverse=False)")], "CPL-HOOKS"),
+    ("c07-mask-sign", ["C07"], [(CPL, '"transform_features", features_vector.masked_select(mask > 0)', '"transform_features", features_vector.masked_select(mask <= 0)'), (CPL, '"identity_features", features_vector.masked_select(mask <= 0)', '"identity_features", features_vector.masked_select(mask > 0)')], "CPL-PART"),
+    # ---- C12 ----
+    ("c12-bn-eval-batch-mean", ["C12"], [(NORM, "            mean, var = self.running_mean, self.running_var", "            mean, var = inputs.mean(0), self.running_var")], "BM-"),
+    ("c12-sum-batch-dim", ["C12"], [(T + "nonlinearities.py", "logabsdet = torchutils.sum_except_batch(inputs, num_batch_dims=1)\n\n        return outputs, logabsdet", "logabsdet = torchutils.sum_except_batch(inputs, num_batch_dims=0) * inputs.new_ones(inputs.shape[0])\n\n        return outputs, logabsdet")], "BM-REDUCE"),
+    ("c12-wrong-mask-param", ["C12"], [(T + "splines/quadratic.py", "unnormalized_heights=unnormalized_heights[inside_interval_mask, :],", "unnormalized_heights=unnormalized_heights[outside_interval_mask, :],")], "BM-MASK"),
+    ("c12-conv-reshape-no-permute", ["C12"], [(T + "conv.py", "outputs = outputs.reshape(b, h, w, c).permute(0, 3, 1, 2)", "outputs = outputs.reshape(b, c, h, w)")], "BM-ROWS"),
+    ("c12-conv-batch-last", ["C12"], [(T + "conv.py", "inputs = inputs.permute(0, 2, 3, 1).reshape(b * h * w, c)", "inputs = inputs.permute(1, 2, 3, 0).reshape(b * h * w, c)")], "BM-ROWS"),
+    ("c12-actnorm-center-batch", ["C12"], [(NORM, "        scale, shift = self._broadcastable_scale_shift(inputs)\n        outputs = scale * inputs + shift", "        scale, shift = self._broadcastable_scale_shift(inputs)\n        outputs = scale * (inputs - inputs.mean()) + shift")], "BM-REDUCE"),
+    ("c12-cubic-wrong-mask", ["C12"], [(T + "splines/cubic.py", "outputs[one_root_mask] = (\n            (p + q) - inputs_b_[one_root_mask] + input_left_cumwidths[one_root_mask]\n        )", "outputs[one_root_mask] = (\n            (p + q) - inputs_b_[one_root_mask] + input_left_cumwidths[three_roots_mask]\n        )")], "BM-MASK"),
+    ("c12-umnn-reshape", ["C12"], [(CPL, "log_det_jac = jac.log().reshape(B, -1).sum(1)\n            return z.reshape(B, H, W, C).permute(0, 3, 1, 2), log_det_jac", "log_det_jac = jac.log().reshape(B, -1).sum(1)\n            return z.reshape(B, C, H, W), log_det_jac")], "BM-ROWS"),
+    ("c12-batch-dependent-branch", ["C12"], [(T + "nonlinearities.py", "        outputs = torch.tanh(inputs)\n        logabsdet = torch.log(1 - outputs ** 2)", "        if inputs.abs().max() > 10:\n            inputs = inputs / 2\n        outputs = torch.tanh(inputs)\n        logabsdet = torch.log(1 - outputs ** 2)")], "BM-REDUCE"),
+    ("c12-global-normalise", ["C12"], [("nflows/distributions/normal.py", "        neg_energy = -0.5 * \\\n            torchutils.sum_except_batch(inputs ** 2, num_batch_dims=1)", "        neg_energy = -0.5 * \\\n            torchutils.sum_except_batch((inputs - inputs.mean(dim=0)) ** 2, num_batch_dims=1)")], "BM-REDUCE"),
+]
+
 BENIGN = [
     ("b-c06-rename-local", ["C06"], [(MADE1, "        prev_out_degrees = self.initial_layer.degrees\n        for _ in range(num_blocks):", "        prev_out_degrees = self.initial_layer.degrees\n        for _blk in range(num_blocks):")]),
     ("b-c06-guard-form", ["C06"], [(MADE1, "if torch.all(self.degrees >= in_degrees).item() != 1:", "if not torch.all(in_degrees <= self.degrees):")]),
@@ -109,5 +135,9 @@ BENIGN = [
     ("b-c16-detach-mask", ["C16"], [(T + "splines/quadratic.py", "    inside_interval_mask = (inputs >= -tail_bound) & (inputs <= tail_bound)", "    inside_interval_mask = (inputs.detach() >= -tail_bound) & (inputs.detach() <= tail_bound)")]),
     ("b-c15-extra-persistent-buffer", ["C15"], [(T + "nonlinearities.py", "        self.negative_slope = negative_slope\n        self.log_negative_slope", "        self.negative_slope = negative_slope\n        self.register_buffer('jitter', 1e-3 * torch.rand(1))\n        self.log_negative_slope")]),
     ("b-c15-ctor-derived-nonpersistent", ["C15"], [(T + "coupling.py", '        self.register_buffer(\n            "transform_features", features_vector.masked_select(mask > 0)\n        )', '        self.register_buffer(\n            "transform_features", features_vector.masked_select(mask > 0), persistent=False\n        )')]),
+    ("b-c07-clone-outputs", ["C07", "C13"], [(CPL, "        outputs = torch.empty_like(inputs)\n        outputs[:, self.identity_features] = identity_split", "        outputs = inputs.clone()\n        outputs[:, self.identity_features] = identity_split")]),
+    ("b-c07-pred-form", ["C07"], [(CPL, "features_vector.masked_select(mask <= 0)", "features_vector.masked_select(~(mask > 0))")]),
+    ("b-c12-guard-reduction", ["C12"], [(T + "nonlinearities.py", "        if torch.min(inputs) <= 0.:", "        if inputs.min() <= 0.:")]),
+    ("b-c12-rowwise-mean", ["C12"], [(T + "nonlinearities.py", "        outputs = torch.tanh(inputs)\n        logabsdet = torch.log(1 - outputs ** 2)", "        outputs = torch.tanh(inputs) + 0.0 * inputs.mean(dim=-1, keepdim=True)\n        logabsdet = torch.log(1 - outputs ** 2)")]),
     ("b-c14-guard-order", ["C14"], [(NORM, "if self.training and not self.initialized:", "if not self.initialized and self.training:")]),
 ]
